@@ -294,6 +294,28 @@ func c09Cases(r *ev.Run, rng *rand.Rand, d ntske.Data, tag string) []*c09Case {
 		}
 		cases = append(cases, &c09Case{id: fmt.Sprintf("%sntsbad%d", tag, fb), data: bad, tx: tx2, expect: false, class: "len>48,NTS-authenticator-invalid"})
 	}
+	// valid NTS requests of sizes up to exactly the IP listener's receive buffer (2048 bytes): many
+	// placeholders, and a unique identifier stretched to make up the remainder
+	if len(d.Cookie) > 0 {
+		cl := (len(d.Cookie[0]) + 3) &^ 3
+		for _, target := range []int{1236, 2040, 2044, 2048} {
+			for np := 17; np >= 0; np-- {
+				l := target - 48 - 4 - (np+1)*(4+cl) - 40
+				if l < 32 || l > 400 || l%4 != 0 {
+					continue
+				}
+				hdr := peer.NTPRequest(0)
+				hdr[0] = 0x23
+				tx := peer.UniqueTime64()
+				binary.BigEndian.PutUint64(hdr[40:], tx)
+				pkt := peer.NTSRequest(hdr, randBytes(rng, l), d.Cookie[0], np, d.C2sKey)
+				if len(pkt) == target {
+					cases = append(cases, &c09Case{id: fmt.Sprintf("%sntslen%d", tag, target), data: pkt, tx: tx, expect: true, class: fmt.Sprintf("len=%d,valid-NTS", target)})
+				}
+				break
+			}
+		}
+	}
 	rng.Shuffle(len(cases), func(i, j int) { cases[i], cases[j] = cases[j], cases[i] })
 	return cases
 }
